@@ -227,9 +227,9 @@ func shrinkScan(in string) []string {
 	return out
 }
 
-func obsList(l []string) string  { return "(OList " + coqSList(l) + ")" }
-func obsBytes(s string) string   { return "(OBytes " + coqS(s) + ")" }
-func obsBool(b bool) string      { return "(OBool " + coqBool(b) + ")" }
+func obsList(l []string) string { return "(OList " + coqSList(l) + ")" }
+func obsBytes(s string) string  { return "(OBytes " + coqS(s) + ")" }
+func obsBool(b bool) string     { return "(OBool " + coqBool(b) + ")" }
 func urlRaws(us []*models.URL) []string {
 	out := make([]string, 0, len(us))
 	for _, u := range us {
